@@ -22,12 +22,15 @@ ASSUMPTIONS = ['refpgp.armor implements RFC 4880 section 7 independently', 'lone
 
 LINES = ['', 'plain line', '-dash at start', '- dash space', '--', '-----BEGIN PGP SIGNATURE-----', '-----BEGIN PGP SIGNED MESSAGE-----', '-----END PGP MESSAGE-----',
          'From the beginning', 'from lower', 'trailing space ', 'trailing tab\t', 'both \t ', '   ', '\t', ' leading', 'Hash: SHA1', 'ünïcödé', 'ÿ latin-1 only',
-         '日本語', 'astral 🎉 𝒳', 'x' * 5000, '=abcd', 'a-b', '- ', '-', 'Comment: not a header']
+         '日本語', 'astral 🎉 𝒳', 'x' * 5000, '=abcd', 'a-b', '- ', '-', 'Comment: not a header',
+         # characters Python's str methods treat as white space / line boundaries but RFC 4880 7.1 does not (only space and tab are stripped, only LF / CRLF end a line)
+         'no-break space at end\u00a0', 'ideographic space at end\u3000', 'form feed at end\x0c', 'vertical tab\x0b', 'next-line\u0085',
+         'file separator\x1c', 'line separator\u2028 inside', 'en quad\u2000 ', '\u00a0', '- \x0c']
 SIGNERS = ['ed25519-0', 'ecdsa-p256-0', 'dsa1024-0', 'rsa1024-0', 'ecdsa-p521-0']
 
 
 def text_strategy():
-    line = st.one_of(st.sampled_from(LINES), st.text(alphabet=' -abF\tü', max_size=12))
+    line = st.one_of(st.sampled_from(LINES), st.text(alphabet=' -abF\tü\u00a0\x0c', max_size=12))
     eol = st.sampled_from(['\n', '\n', '\n', '\r\n', '\r'])
     return st.builds(lambda ls, es, final: ''.join(l + e for l, e in zip(ls, es)) if final else ''.join(l + e for l, e in zip(ls, es))[:-len(es[min(len(ls), len(es)) - 1])] if ls else '',
                      st.lists(line, max_size=7), st.lists(eol, min_size=7, max_size=7), st.booleans())
@@ -52,6 +55,10 @@ def classes(text):
         c.append('non-ascii')
     if any(ord(ch) > 0xFFFF for ch in text):
         c.append('astral')
+    if any(l and l[-1].isspace() and l[-1] not in ' \t\r' for l in lines):
+        c.append('trailing-unicode-space')
+    if any(ch in text for ch in '\x0b\x0c\x1c\x1d\x1e\x85\u2028\u2029'):
+        c.append('python-line-boundary-char')
     if any(len(l) > 1000 for l in lines):
         c.append('long-line')
     if not text:
